@@ -192,13 +192,28 @@ func rtValues(c rtCase) (map[string]any, string, []string) {
 func runRoundTrip(c rtCase) rtEvent {
 	ev := rtEvent{Ev: "rt", Impl: c.Impl, Via: c.Via, Class: c.Class, Ret: "ok"}
 	p, _ := catch(func() {
-		schema := akSchema(c.Impl)
+		schemaImpl := c.Impl
+		if schemaImpl == "softnf" {
+			schemaImpl = "soft"
+		}
+		schema := akSchema(schemaImpl)
 		fields := akFields(c.Impl)
 		implOfRes := c.Impl
 		if implOfRes == "wrapn" {
 			implOfRes = "wrap"
 		}
+		if implOfRes == "softnf" {
+			implOfRes = "soft"
+		}
 		src := newRes(implOfRes, "ak", fields, kindMap{})
+		if sr, ok := src.(*jsonapi.SoftResource); ok && c.Impl == "softnf" {
+			// a soft type declared by hand: its one-way relationships do not say where they start
+			// (Type.AddRel, Schema.AddType and Check take them as they are)
+			for k, r := range sr.Type.Rels {
+				r.FromType = ""
+				sr.Type.Rels[k] = r
+			}
+		}
 		id := rtIDs[c.IDSel%len(rtIDs)]
 		src.Set("id", id)
 		vals, o, m := rtValues(c)
@@ -226,10 +241,13 @@ func runRoundTrip(c rtCase) rtEvent {
 		src.Set("o", o)
 		src.Set("m", append([]string{}, m...))
 		src.Set("o2", "")
+		wantO2, wantM2 := "", []string{}
 		if len(m) > 0 {
 			src.Set("o2", m[0])
+			wantO2 = m[0]
 			if _, has := fields["m2"]; has {
 				src.Set("m2", []string{o})
+				wantM2 = []string{o}
 			}
 		}
 		all, rd := allFieldsOf(src)
@@ -314,7 +332,7 @@ func runRoundTrip(c rtCase) rtEvent {
 		}
 		// a resource of a type without any relationship, right after one that has them
 		impl3 := "soft"
-		if c.Impl == "soft" {
+		if schemaImpl == "soft" {
 			impl3 = "wrap"
 		}
 		r3 := newRes(impl3, "ak3", ak3Fields, kindMap{})
@@ -356,7 +374,8 @@ func runRoundTrip(c rtCase) rtEvent {
 			}
 		}
 		bo, _ := back.Get("o").(string)
-		ev.R.To1Same = bo == o
+		bo2, _ := back.Get("o2").(string)
+		ev.R.To1Same = bo == o && bo2 == wantO2 // (an empty relationship next to a set one stays empty)
 		// what came back is the caller's: writing through its pointers and slices must not reach
 		// anything the next read gets (a shared table of values, a pooled buffer)
 		for f, d := range fields {
@@ -376,6 +395,10 @@ func runRoundTrip(c rtCase) rtEvent {
 		}
 		bm, _ := back.Get("m").([]string)
 		ev.R.ManySame = reflect.DeepEqual(setOf(bm), setOf(m))
+		if _, has := fields["m2"]; has {
+			bm2, _ := back.Get("m2").([]string)
+			ev.R.ManySame = ev.R.ManySame && reflect.DeepEqual(setOf(bm2), setOf(wantM2))
+		}
 	})
 	if p {
 		ev.Ret = "panic"
@@ -1079,7 +1102,7 @@ func remarshalSame(c payCase, out []byte) bool {
 func codecOtherModes(mode string, rng *rand.Rand, stt *stats, w *evWriter, n int, seed int64, gen string) {
 	switch mode {
 	case "roundtrip":
-		for _, impl := range []string{"soft", "wrapn", "wrap", "wrapn"} { // the narrower struct first, and again after the full one
+		for _, impl := range []string{"soft", "softnf", "wrapn", "wrap", "wrapn"} { // the narrower struct first, and again after the full one
 			for _, via := range []string{"resource", "document"} {
 				classes := []string{"zero", "nil"}
 				for t := 0; t < 3*3+3; t++ { // every rank of every table for all kinds at once, then mixed ranks
@@ -1184,6 +1207,29 @@ func codecOtherModes(mode string, rng *rand.Rand, stt *stats, w *evWriter, n int
 				}
 			}
 		}
+		// the shortest byte strings: every single byte, and every string of two and three bytes over the
+		// bytes that begin something (an object, an array, a string, a literal, a byte order mark, a
+		// UTF-8 lead byte) - whatever peeks at the first bytes of a body finds them here
+		marks := []byte{0x00, ' ', '{', '[', '"', 'n', 't', '-', '1', 0xEF, 0xBB, 0xBF, 0xFE, 0xFF, 0xC3, 0x80}
+		var tiny [][]byte
+		for b := 0; b < 256; b++ {
+			tiny = append(tiny, []byte{byte(b)})
+		}
+		for _, x := range marks {
+			for _, y := range marks {
+				tiny = append(tiny, []byte{x, y})
+				if x >= 0x80 || x == '{' {
+					for _, z := range marks {
+						tiny = append(tiny, []byte{x, y, z})
+					}
+				}
+			}
+		}
+		for _, b := range tiny {
+			for _, entry := range feedEntries {
+				emit("soft", entry, "tiny", b)
+			}
+		}
 		deep := []byte(strings.Repeat(`{"data":`, 3000) + "1" + strings.Repeat("}", 3000))
 		deepArr := []byte(strings.Repeat("[", 20000) + strings.Repeat("]", 20000))
 		for _, entry := range feedEntries {
@@ -1237,6 +1283,19 @@ func codecOtherModes(mode string, rng *rand.Rand, stt *stats, w *evWriter, n int
 			}
 			return "7"
 		}
+		zeroLit := func(f string) string {
+			d := fields[f]
+			switch classOf(kindOf(d.K)) {
+			case "seq":
+				return `""`
+			case "bool":
+				return "false"
+			}
+			if d.K == "time" {
+				return `"0001-01-01T00:00:00Z"`
+			}
+			return "0"
+		}
 		shapes := []string{"absent", "nodata", "null", "ident", "list", "badshape", "identbadtype"}
 		for i := 0; i < n; i++ {
 			c := payCase{Fam: "codec", Mode: "partial", Impl: []string{"soft", "wrap"}[i%2], Attrs: map[string]string{}}
@@ -1246,6 +1305,8 @@ func codecOtherModes(mode string, rng *rand.Rand, stt *stats, w *evWriter, n int
 					c.Attrs[f] = okLit(f)
 					if fields[f].Null && rng.Intn(3) == 0 {
 						c.Attrs[f] = "null"
+					} else if rng.Intn(3) == 0 {
+						c.Attrs[f] = zeroLit(f) // the value that is there but empty: "", 0, false, the first instant
 					}
 				}
 			}
